@@ -42,6 +42,31 @@
 //! run equals (up to the random initial sequence number / timestamp offset) the output of the same
 //! stream sent alone through a fresh bridge.  MID stamping, stripping, payload and target choice
 //! are *observed* (counters) – the statement does not constrain them.
+//!
+//! *Bridge, timeline clause ("continuous piece").*  The statement exempts *source discontinuities*;
+//! a discontinuity is a property of the source stream's timeline, not of the order in which packets
+//! happen to arrive – a reordered / late packet does not create one.  The consecutive-arrival rule
+//! above cannot see an offset change that happens on the arrival *after* a late packet when that
+//! arrival is far from the late packet but close to the stream's newest packet.  So the monitor
+//! also keeps, per source stream, a *continuous piece*: a set of arrivals that began at an
+//! unambiguous origin (the first packet of the stream, or a packet whose circular distance from
+//! every earlier arrival of the stream is ≥ 10 M ticks – a discontinuity under any reading) and to
+//! which a new arrival p belongs iff, on the source timeline unwrapped inside the piece,
+//!   (a) p lies within `CONT_GAP` = 450 000 ticks of some member that arrived earlier, and
+//!   (b) p is not older than the newest member by more than `LATE_MAX` = 600 000 ticks.
+//! Every member has a continuous chain of earlier-arrived members (links ≤ 450 000) back to the
+//! origin, at every moment, so no source discontinuity separates any two members and
+//! `out_ts − src_ts` must be the same for all of them, whatever the arrival order.  An arrival
+//! that neither joins nor is an unambiguous discontinuity (a grey step) ends the piece and nothing
+//! is claimed by this clause until the next unambiguous origin (the statement is silent there);
+//! the consecutive-arrival rule keeps applying everywhere.  Both bounds are the monitor's own
+//! reading of "continuous" / "late" and deliberately far from the implementation's 900 000-tick
+//! constant (any bridge whose discontinuity threshold is ≥ 450 000 and whose reorder tolerance is
+//! ≥ 600 000 satisfies the clause; the pattern from a fault report "late by 3 000, then a pause of
+//! 898 000" is *not* judged – 898 000 is a grey step).  The generator feeds this clause with
+//! long-but-continuous pauses (48 001..450 000), stragglers (a packet up to 600 000 behind the
+//! newest one, the stream then continuing from the newest) and the motif "pauses, straggler,
+//! pause".
 
 use crate::common::*;
 use bytes::Bytes;
@@ -59,6 +84,12 @@ use std::sync::Arc;
 use tokio::sync::{mpsc, watch};
 
 const SMALL_STEP: u32 = 48_000;
+/// timeline clause: a member of a continuous piece lies within this many ticks of an earlier member
+const CONT_GAP: i64 = 450_000;
+/// timeline clause: a member is at most this much older than the newest member of its piece
+const LATE_MAX: i64 = 600_000;
+/// a step of at least this many ticks (circular distance) is a discontinuity under any reading
+const JUMP_MIN: u32 = 10_000_000;
 const DUMMY_TS: u32 = 0xFFFF_FFFF;
 
 // =====================================================================================
@@ -1402,7 +1433,84 @@ async fn run_bridge(scn: &Value) -> Outcome {
                 json!({"stream": si, "src_ssrc": src_ssrc, "out_ssrc": out_ssrc, "allowed": allowed}),
             );
         }
+        // ---- timeline clause: the current continuous piece (see the module header)
+        //      members: (position on the piece's unwrapped source timeline, arrival index, out_ts - src_ts)
+        let mut piece: Option<Vec<(i64, usize, u32)>> = None;
+        let mut last_pos: i64 = 0;
         for (k, (i, a, o)) in st.iter().enumerate() {
+            {
+                let off_now = o.p.ts.wrapping_sub(a.ts);
+                let far_from_all_earlier = st[..k].iter().all(|(_, e, _)| {
+                    let d = a.ts.wrapping_sub(e.ts);
+                    d.min(d.wrapping_neg()) >= JUMP_MIN
+                });
+                let step = if k == 0 { 0 } else { a.ts.wrapping_sub(st[k - 1].1.ts) as i32 as i64 };
+                let pos = last_pos + step;
+                let mut joined = false;
+                if let Some(members) = piece.as_mut() {
+                    let newest = members.iter().map(|m| m.0).max().unwrap_or(0);
+                    let near = members.iter().any(|m| (m.0 - pos).abs() <= CONT_GAP);
+                    if near && newest - pos <= LATE_MAX {
+                        joined = true;
+                        out.count("bridge.piece.joined", 1);
+                        if newest - pos > SMALL_STEP as i64 {
+                            out.count("bridge.piece.straggler_joined", 1);
+                        }
+                        if pos - newest > SMALL_STEP as i64 {
+                            out.count("bridge.piece.long_pause_joined", 1);
+                        }
+                        let prev_late = members.last().map(|m| newest - m.0).unwrap_or(0);
+                        if prev_late > 0 && pos > newest {
+                            out.count("bridge.piece.forward_after_late", 1);
+                            if prev_late + (pos - newest) > 2 * CONT_GAP {
+                                out.count("bridge.piece.forward_after_late.far_from_late_packet", 1);
+                            }
+                        }
+                        let (p0, i0, off0) = members[0];
+                        if off_now != off0 {
+                            // the consecutive-arrival rule below reports the small-step case under its own key
+                            let prev_small = k > 0 && small(st[k - 1].1.ts, a.ts);
+                            if !prev_small {
+                                let prev = members.last().copied().unwrap_or((p0, i0, off0));
+                                let shape = if prev.0 < newest && pos > newest {
+                                    "forward_step_after_late_packet"
+                                } else if pos > newest {
+                                    "forward_step"
+                                } else {
+                                    "late_packet"
+                                };
+                                out.violate(
+                                    format!("bridge.ts.offset_changed_inside_continuous_piece:{shape}"),
+                                    "out_ts - src_ts differs between two packets of one source stream that belong to one continuous piece of the source timeline \
+                                     (every packet within 450 000 ticks of an earlier one, none more than 600 000 ticks late): no source discontinuity lies between them",
+                                    json!({"stream": si, "arrival": i, "src_ts": a.ts, "out_ts": o.p.ts, "offset": off_now, "piece_offset": off0,
+                                           "piece_origin_arrival": i0, "ticks_ahead_of_newest": pos - newest, "ticks_from_previous_arrival": pos - prev.0,
+                                           "piece_positions": members.iter().map(|m| m.0).collect::<Vec<_>>(), "position": pos}),
+                                );
+                            }
+                            // restart from here so that one re-basing is reported once
+                            *members = vec![(pos, *i, off_now)];
+                        } else {
+                            members.push((pos, *i, off_now));
+                        }
+                    }
+                }
+                if !joined {
+                    if k == 0 || far_from_all_earlier {
+                        piece = Some(vec![(0, *i, off_now)]);
+                        last_pos = 0;
+                        out.count("bridge.piece.started", 1);
+                    } else {
+                        if piece.is_some() {
+                            out.count("bridge.piece.ended_by_grey_step", 1);
+                        }
+                        piece = None;
+                        last_pos = 0;
+                    }
+                } else {
+                    last_pos = pos;
+                }
+            }
             // ---- payload type
             let ms = matching(&rules, a.pt);
             let mut ok_pts: BTreeSet<u8> = BTreeSet::new();
@@ -1626,16 +1734,89 @@ fn gen_bridge(rng: &mut Rng) -> Value {
         let base_step = *rng.pick(&[160u32, 960, 3000, 1, 48_000]);
         let ext_form = *rng.pick(&["none", "none", "one", "one", "two"]);
         let antipode_play = rng.chance(1, 12);
+        // motif of the timeline clause: long-but-continuous pauses, a straggler, another pause
+        let motif_at = if rng.chance(1, 3) { Some(rng.range(1, n.max(2) - 1)) } else { None };
+        // the run since the last jump, in ticks relative to the cursor `ts`: the arrivals so far cover
+        // [ts - below, ts + above] without a gap larger than the largest forward step (<= 450 000)
+        let (mut below, mut above): (u64, u64) = (0, 0);
         let mut pkts = vec![];
+        let mut first = true;
         for k in 0..n {
-            if k > 0 {
+            // timestamps emitted in this round (the cursor `ts` is where the stream continues from)
+            let mut emit: Vec<u32> = vec![];
+            let fwd = |ts: &mut u32, below: &mut u64, above: &mut u64, d: u32| {
+                *ts = ts.wrapping_add(d);
+                *below += d as u64;
+                *above = above.saturating_sub(d as u64);
+            };
+            let back = |ts: &mut u32, below: &mut u64, above: &mut u64, d: u32| {
+                *ts = ts.wrapping_sub(d);
+                *above += d as u64;
+                *below = below.saturating_sub(d as u64);
+            };
+            if k == 0 {
+                emit.push(ts);
+            } else if motif_at == Some(k) {
+                // continue from the newest packet, pause 1..3 times, then a straggler, then a pause
+                let up = above as u32;
+                fwd(&mut ts, &mut below, &mut above, up);
+                for _ in 0..rng.range(1, 3) {
+                    let d = rng.range(150_000, CONT_GAP as u64) as u32;
+                    fwd(&mut ts, &mut below, &mut above, d);
+                    emit.push(ts);
+                }
+                let max_late = below.min(LATE_MAX as u64).max(1);
+                let late = match rng.below(3) {
+                    0 => rng.range(1, max_late.min(SMALL_STEP as u64)),
+                    1 => rng.range(1, max_late),
+                    _ => rng.range(max_late - max_late / 6, max_late),
+                } as u32;
+                emit.push(ts.wrapping_sub(late));
+                let d = match rng.below(4) {
+                    0 => base_step,
+                    1 => rng.range(SMALL_STEP as u64 + 1, CONT_GAP as u64) as u32,
+                    _ => rng.range(400_000, CONT_GAP as u64) as u32,
+                };
+                fwd(&mut ts, &mut below, &mut above, d);
+                emit.push(ts);
+            } else {
                 match rng.below(100) {
-                    0..=69 => ts = ts.wrapping_add(base_step),
-                    70..=75 => {} // same timestamp (several packets of one frame)
-                    76..=83 => ts = ts.wrapping_sub(rng.range(1, SMALL_STEP as u64) as u32), // reorder / late packet
-                    84..=87 => ts = ts.wrapping_add(rng.range(1, SMALL_STEP as u64) as u32),
-                    88..=92 => ts = ts.wrapping_add(rng.range(10_000_000, 1_000_000_000) as u32),
-                    93..=97 => ts = ts.wrapping_sub(rng.range(10_000_000, 1_000_000_000) as u32),
+                    0..=63 => fwd(&mut ts, &mut below, &mut above, base_step),
+                    64..=69 => {} // same timestamp (several packets of one frame)
+                    70..=76 => {
+                        // reorder / late packet, the stream continuing from it
+                        let d = rng.range(1, SMALL_STEP as u64) as u32;
+                        back(&mut ts, &mut below, &mut above, d);
+                    }
+                    77..=80 => {
+                        let d = rng.range(1, SMALL_STEP as u64) as u32;
+                        fwd(&mut ts, &mut below, &mut above, d);
+                    }
+                    81..=84 => {
+                        // long-but-continuous pause
+                        let d = rng.range(SMALL_STEP as u64 + 1, CONT_GAP as u64) as u32;
+                        fwd(&mut ts, &mut below, &mut above, d);
+                    }
+                    85..=87 => {
+                        // straggler: a packet behind the newest one; the stream continues from the newest
+                        let up = above as u32;
+                        fwd(&mut ts, &mut below, &mut above, up);
+                        let max_late = below.min(LATE_MAX as u64);
+                        if max_late >= 1 {
+                            let late = if rng.bool() { rng.range(1, max_late) } else { rng.range(max_late - max_late / 6, max_late) };
+                            emit.push(ts.wrapping_sub(late as u32));
+                        } else {
+                            fwd(&mut ts, &mut below, &mut above, base_step);
+                        }
+                    }
+                    88..=92 => {
+                        ts = ts.wrapping_add(rng.range(10_000_000, 1_000_000_000) as u32);
+                        (below, above) = (0, 0);
+                    }
+                    93..=97 => {
+                        ts = ts.wrapping_sub(rng.range(10_000_000, 1_000_000_000) as u32);
+                        (below, above) = (0, 0);
+                    }
                     _ => {
                         if antipode_play {
                             // a jump of about half the timestamp space, then small steps around it
@@ -1643,34 +1824,43 @@ fn gen_bridge(rng: &mut Rng) -> Value {
                         } else {
                             ts = ts.wrapping_add(rng.range(10_000_000, 2_000_000_000) as u32);
                         }
+                        (below, above) = (0, 0);
                     }
                 }
-                seq = if rng.chance(1, 12) { seq.wrapping_sub(rng.range(1, 3) as u16) } else { seq.wrapping_add(1) };
+                if emit.is_empty() {
+                    emit.push(ts);
+                }
             }
-            let pt = match rng.below(20) {
-                0 | 1 => 101,
-                2 => *rng.pick(&src_pts),
-                _ => main_pt,
-            };
-            let elems: Vec<Value> = match ext_form {
-                "one" => (0..rng.below(3))
-                    .map(|_| {
-                        let n = rng.range(1, 6) as usize;
-                        json!([rng.range(1, 14), hex(&rng.bytes(n))])
-                    })
-                    .collect(),
-                "two" => (0..rng.below(3))
-                    .map(|_| {
-                        let n = rng.range(0, 6) as usize;
-                        json!([rng.range(1, 40), hex(&rng.bytes(n))])
-                    })
-                    .collect(),
-                _ => vec![],
-            };
-            pkts.push(json!({"idx": idx, "seq": seq, "ts": ts, "pt": pt, "m": rng.chance(1, 8), "len": rng.below(40),
-                             "ext": {"form": ext_form, "elems": elems}}));
-            idx += 1;
-            order.push(streams.len());
+            for pkt_ts in emit {
+                if !first {
+                    seq = if rng.chance(1, 12) { seq.wrapping_sub(rng.range(1, 3) as u16) } else { seq.wrapping_add(1) };
+                }
+                first = false;
+                let pt = match rng.below(20) {
+                    0 | 1 => 101,
+                    2 => *rng.pick(&src_pts),
+                    _ => main_pt,
+                };
+                let elems: Vec<Value> = match ext_form {
+                    "one" => (0..rng.below(3))
+                        .map(|_| {
+                            let n = rng.range(1, 6) as usize;
+                            json!([rng.range(1, 14), hex(&rng.bytes(n))])
+                        })
+                        .collect(),
+                    "two" => (0..rng.below(3))
+                        .map(|_| {
+                            let n = rng.range(0, 6) as usize;
+                            json!([rng.range(1, 40), hex(&rng.bytes(n))])
+                        })
+                        .collect(),
+                    _ => vec![],
+                };
+                pkts.push(json!({"idx": idx, "seq": seq, "ts": pkt_ts, "pt": pt, "m": rng.chance(1, 8), "len": rng.below(40),
+                                 "ext": {"form": ext_form, "elems": elems}}));
+                idx += 1;
+                order.push(streams.len());
+            }
         }
         streams.push(json!({"ssrc": ssrc, "pkts": pkts}));
     }
@@ -1743,6 +1933,7 @@ pub fn run(args: &Args) -> i32 {
     report.assume("RFC 8285 is the reading of 'carries a RID/MID header extension' (two-byte profile = 0x100|appbits, id 15 terminates a one-byte block); malformed blocks are accepted under any reading");
     report.note("not constrained (observed only): fall-back order between unambiguous-PT and single-provisional routing; MID stamping / extension stripping / payload / target choice of the bridge; SSRC bindings learnt from an unambiguous PT are accepted, not demanded");
 
+    report.note("bridge timeline clause: 'source discontinuity' is read on the source timeline, not on arrival order - packets that form one continuous piece (origin = first packet or a step >= 10 M ticks away from every earlier packet; each later member within 450 000 ticks of an earlier member and at most 600 000 ticks older than the newest) must share out_ts - src_ts; grey steps end the piece and nothing is claimed until the next unambiguous origin");
     report.note("sensitivity (builder run, rustrtc with the three proposed C19 fixes applied, quick tier seed 1): 10/10 mutations of src/transports/rtp.rs reported \
                  – MID overrides RID (ii); first PT match wins (vii); MID match does not bind the SSRC (iv); PT route consulted before the SSRC table (iv); \
                  payload list appended instead of replaced (v/vii); rewrite state keyed by output SSRC (seq/ts/independence); discontinuity threshold 9 000 (ts); \
